@@ -49,7 +49,8 @@ class Ctx:
     cur: "Ctx | None" = None
 
     def __init__(self, pre=(), deadline=None, seed=0):
-        self.solver = z3.Solver()
+        logic = os.environ.get("SYMX_LOGIC")
+        self.solver = z3.SolverFor(logic) if logic else z3.Solver()
         self.solver.set("timeout", CHECK_TIMEOUT_MS)
         self.pre = [p for p in pre]
         for p in self.pre:
